@@ -23,6 +23,7 @@ type Stats struct {
 	Ops        int            `json:"ops"`
 	Steps      int            `json:"steps"`
 	Switches   int            `json:"switches"`
+	MapAcc     int            `json:"map_accesses"`
 	SimTime    time.Duration  `json:"sim_time_ns"`
 	Faults     map[string]int `json:"faults,omitempty"`
 	Probes     map[string]int `json:"probes,omitempty"`
@@ -101,6 +102,7 @@ func finish(s *simrt.Sim, w *world.World, st Stats, deadlockIsViolation bool) Ou
 	out := Outcome{Stats: st}
 	out.Stats.Steps = s.Steps
 	out.Stats.Switches = s.Switches
+	out.Stats.MapAcc = s.MapAccesses
 	out.Stats.SimTime = s.Elapsed()
 	out.Stats.TraceHash = s.TraceHash
 	out.Stats.LogHash = s.LogHash
